@@ -305,6 +305,13 @@ def _rels(e, truth, pts):
                  'Eq': ('==', a, b, pts), 'Ne': ('!=', a, b, pts)}[op]]
     if e[0] == 'call' and val in (0, 1) and (e[1] or '').endswith('::is_empty') and len(e[2]) == 1:
         return [('nonempty' if val == 0 else 'empty', e[2][0], None, pts)]
+    # checked slice access: `s.get(..n)` / `s.get(n..)` is Some exactly when n <= s.len()
+    if e[0] == 'discr' and val == 1:
+        c = _peel(e[1])
+        if isinstance(c, tuple) and c and c[0] == 'call' and re.search(r'core::slice::<impl \[T\]>::get(_mut)?$', c[1] or '') and len(c[2]) == 2:
+            rp = _range_parts(c[2][1])
+            if rp and rp[0] in ('to', 'from'):
+                return [('<=', rp[1], ('len', c[2][0]), pts)]
     out = []
     if truth[0] == 'eq':
         out.append(('==', e, ('c', truth[1], expr_ty(e) or '?'), pts))
@@ -929,6 +936,15 @@ def discharge(site, delegated):
             if isinstance(s0, tuple) and s0 and s0[0] == 'field' and s0[2] == 0 and isinstance(_peel(s0[1]), tuple) and _peel(s0[1])[0] == 'call' and \
                     (_peel(s0[1])[1] or '').split('::')[-1] in ('split_at', 'split_at_mut') and len(_peel(s0[1])[2]) == 2 and _is_len_of(_peel(s0[1])[2][1], d0):
                 return ('equal-len', 'source is s.split_at(dst.len()).0: both slices have dst.len() elements')
+            # source is the payload of `s.get(..dst.len())`: exactly dst.len() elements
+            if isinstance(s0, tuple) and s0 and s0[0] == 'field' and s0[2] == 0:
+                dn = _peel(s0[1])
+                if isinstance(dn, tuple) and dn and dn[0] == 'down' and str(dn[2]).endswith('Some'):
+                    gc = _peel(dn[1])
+                    if isinstance(gc, tuple) and gc and gc[0] == 'call' and re.search(r'core::slice::<impl \[T\]>::get(_mut)?$', gc[1] or '') and len(gc[2]) == 2:
+                        rp = _range_parts(gc[2][1])
+                        if rp and rp[0] == 'to' and _is_len_of(rp[1], d0):
+                            return ('equal-len', 'source is the payload of s.get(..dst.len()): both slices have dst.len() elements')
             dst, src = _peel(ex[0]), _peel(ex[1])
             # src = s[..len(dst)]  or  s[a..a+len(dst)]
             ss = src
